@@ -129,6 +129,10 @@ _PURE_METHODS = {
     set: {"union", "intersection", "difference", "issubset", "copy"},
 }
 
+import math as _math
+_MATH = {"math." + n: getattr(_math, n) for n in (
+    "floor", "ceil", "trunc", "copysign", "fabs", "isclose")}
+
 OPCODE_CLASS = "ebpfcat.ebpf.Opcode"
 
 
@@ -232,6 +236,8 @@ class Evaluator:
                     return ("pyfunc", getattr(struct, what.split(".")[1]))
                 if what == "operator.index":
                     return ("pyfunc", operator.index)
+                if what in _MATH:
+                    return ("pyfunc", _MATH[what])
                 return ("ext", what)
             if kind == "node":
                 if isinstance(what, FUNC):
@@ -270,6 +276,9 @@ class Evaluator:
         return self.getattr(base, node.attr)
 
     def getattr(self, base, attr):
+        if isinstance(base, tuple) and base[:1] == ("ext",) and \
+                f"{base[1]}.{attr}" in _MATH:
+            return ("pyfunc", _MATH[f"{base[1]}.{attr}"])
         if isinstance(base, ClassRef):
             return self.class_attr(base.ci, attr)
         if isinstance(base, EnumVal):
@@ -697,6 +706,13 @@ class Evaluator:
                     m = self._dunder(args[0], "__abs__")
                     if m is None:
                         raise Raised("TypeError: bad operand for abs()")
+                    return self.call(m, [])
+                if f[1] is operator.index and len(args) == 1 and isinstance(
+                        args[0], Obj) and args[0].ci is not None:
+                    m = self._dunder(args[0], "__index__")
+                    if m is None:
+                        raise Raised("TypeError: object cannot be "
+                                     "interpreted as an integer")
                     return self.call(m, [])
                 if any(isinstance(a, (Obj, Opaque, ClassRef))
                        for a in list(args) + list(kwargs.values())):
